@@ -112,3 +112,24 @@ func ValidateCompiledDefault(q *rego.PreparedEvalQuery, data string, ch *chan ev
 	o.Report, o.Err = pkg.ValidateCompiled(q, data, false, ch)
 	return
 }
+
+// CompileDebug calls pkg.CompileProfile with the given debug flag.
+func CompileDebug(profile string, debug bool, ch *chan events.Event) (c Compiled) {
+	defer func() {
+		if r := recover(); r != nil {
+			c.Panic = r
+			c.Stack = string(debug2Stack())
+		}
+	}()
+	c.Q, c.Err = pkg.CompileProfile(profile, debug, ch)
+	return
+}
+
+func debug2Stack() []byte { return debug.Stack() }
+
+// ValidateDebug calls pkg.ValidateWithConfiguration with the given debug flag (fixed clock, default report configuration).
+func ValidateDebug(profile, data string, dbg bool, ch *chan events.Event) (o Outcome) {
+	defer guard(&o)
+	o.Report, o.Err = pkg.ValidateWithConfiguration(profile, data, dbg, ch, Epoch2000, config.DefaultReportConfiguration())
+	return
+}
